@@ -21,8 +21,8 @@ RULE = (
     "meshes {tetra, cube, octa, prism, cube with a split face, pyr5, pyr8, mixed 3..6-gon patch, one face of every size 3..8, antimeridian strip, pole cap, pole fan, "
     "isolated faces, single triangle, icosahedron} x formats {UGRID, MPAS primal, MPAS dual, SCRIP, Exodus, ESMF, GEOS-CS (N=1,2,3), ICON, GeoJSON, shapefile, "
     "face-vertex arrays, topology dict} x dialect vectors with <= k deviations from the format's default (UGRID: start_index x fill x dtype x names x lon x optional "
-    "tables; MPAS: padding x optional tables x coords; SCRIP: lon; Exodus: coord variable x blocks x radius x dtype; ESMF: start_index x centres x dtype x padding x "
-    "lon; vertices: container x latlon/xyz x layout; topology: fill {INT_FILL,-1,none,0,999} x start_index x optional kwargs x lon; MPAS and ICON also x index dtype int32/int64), in memory, (k=0,1) through a NetCDF file, and (k<=1) as the SECOND open of the same in-memory source object. "
+    "tables; MPAS: padding x optional tables x coords; SCRIP: lon x centre-longitude convention x corner-table memory order; Exodus: coord variable x blocks x radius x dtype; ESMF: start_index x centres x dtype x padding x centre-longitude convention x "
+    "lon; vertices: container x latlon/xyz x layout; topology: fill {INT_FILL,-1,none,0,999} x start_index x optional kwargs x lon; MPAS and ICON also x index dtype int32/int64), in memory, (k=0,1) through a NetCDF file, (k<=1) as the SECOND open of the same in-memory source object, and (k<=1) with every table column-major in memory. "
     "non-trivial = mixed face sizes or a non-default dialect; distinct = (format, mesh, dialect vector, medium)"
 )
 ASSUMPTIONS = [
@@ -38,7 +38,7 @@ MESH_Q = ["tetra", "cube", "cubesplit", "pyr5", "mixedpatch", "sizes38", "amstri
 MESH_T = MESH_Q + ["octa", "prism", "pyr8", "polecap", "icosa"]
 FORMATS = ["ugrid", "mpas", "scrip", "exodus", "esmf", "icon", "geojson", "shapefile", "vertices", "topology", "geos"]
 VERT_AXES = [("container", ["list", "tuple", "ndarray"]), ("latlon", [True, False]), ("layout", ["3d", "2d"])]
-TOPO_AXES = [("fill", ["INT_FILL", -1, None, 0, 999]), ("start_index", [0, 1]), ("extra", ["none", "edges", "centres", "edges+centres"]), ("lon", ["pm180", "0-360"])]
+TOPO_AXES = [("fill", ["INT_FILL", -1, None, 0, 999]), ("start_index", [0, 1]), ("extra", ["none", "edges", "centres", "edges+centres", "centres-lon360"]), ("lon", ["pm180", "0-360"])]
 
 
 def _vectors(fmt, k):
@@ -223,17 +223,22 @@ def run_case(case):
                 media.append((False, rev))
             if ndev <= 1 and fmt not in ("geojson", "shapefile"):
                 media.append((False, "again"))
+            if ndev <= 1 and fmt in ("ugrid", "mpas", "scrip", "exodus", "esmf", "icon"):
+                media.append((False, "fortran"))
             for via_file, prior in media:
-                again = isinstance(prior, str)
-                if again:
+                again = prior == "again"
+                fortran = prior == "fortran"
+                if isinstance(prior, str):
                     prior = None
                 foc = {"vec": [str(x) for x in vec], "file": via_file, "after_other_source": prior is not None, "second_open_of_same_source": again}
+                if fortran:
+                    foc["memory_order"] = "F"
                 if "only" in case and foc != case["only"]:
                     continue
                 kw = dict(zip([a[0] for a in ax], vec)) if ax else {}
 
                 def bad(sig, msg, foc=foc, kw=kw):
-                    V.append({"oracle": "decode", "sig": sig + (":mixed" if mixed else ":uniform") + (":after-other-source" if foc["after_other_source"] else "") + (":second-open" if foc["second_open_of_same_source"] else ""), "msg": "%s source of mesh %s, dialect %s%s%s: %s" % (fmt, case["mesh"], kw, " via NetCDF file" if foc["file"] else "", " (opened after the same mesh with reversed face order)" if foc["after_other_source"] else (" (second open of the same in-memory source object)" if foc["second_open_of_same_source"] else ""), msg), "focus": dict(case, only=foc)})
+                    V.append({"oracle": "decode", "sig": sig + (":mixed" if mixed else ":uniform") + (":after-other-source" if foc["after_other_source"] else "") + (":second-open" if foc["second_open_of_same_source"] else ""), "msg": "%s source of mesh %s, dialect %s%s%s: %s" % (fmt, case["mesh"], kw, " via NetCDF file" if foc["file"] else "", " (opened after the same mesh with reversed face order)" if foc["after_other_source"] else (" (second open of the same in-memory source object)" if foc["second_open_of_same_source"] else (" (tables column-major in memory)" if foc.get("memory_order") else "")), msg), "focus": dict(case, only=foc)})
 
                 pool.fresh()
                 if prior is not None:
@@ -270,6 +275,11 @@ def run_case(case):
                 if r is None:
                     continue  # this dialect combination is not well-formed for this mesh
                 src, exp = r
+                if fortran:
+                    # the same content with every table stored column-major in memory (arrays assembled column-wise, transposed views)
+                    for vn in list(src.variables):
+                        if src[vn].ndim >= 2:
+                            src[vn] = (src[vn].dims, np.asfortranarray(src[vn].values), dict(src[vn].attrs))
                 res["evaluations"] += 1
                 res["transitions"] += 1
                 key = digest((fmt, case["mesh"], foc))
